@@ -55,6 +55,8 @@ def gen(seed):
     t = np.where(rng.random(n) < 0.4, on_bound, anywhere)
     # the last bound itself is outside every chunk; keep a few such spikes too
     t = np.sort(t)
+    if rng.random() < 0.15:
+        t = t[rng.permutation(len(t))]          # the statement quantifies over all spike-time vectors: also unsorted ones
     t = t.astype([np.int64, np.uint64, np.float64, np.float32, np.int32][int(rng.integers(0, 5))]) if bounds.dtype.kind == 'f' \
         else t.astype([np.int64, np.uint64, np.float64][int(rng.integers(0, 3))])
     k = int(rng.integers(1, 5))
@@ -90,6 +92,11 @@ def _model_case(case, ctx):
                 raw=['int16', 'float32'][int(rng.integers(0, 2))], raw_parts=int(rng.choice([1, 1, 2, 3])),
                 n_samples=n_samples, ncdat_extra=0, features='none', clusters=['same', 'curated'][int(rng.integers(0, 2))])
     spec = random_spec(rng, **opts)
+    if case['seed'][2] % 3 == 1 and opts['raw_parts'] == 1:
+        # the raw file ends before the last spikes (accepted at load with a warning): they lie in no chunk
+        cut = int(spec.spike_samples[len(spec.spike_samples) * 3 // 4])
+        if cut > 2 * clen:
+            spec.raw = spec.raw[:cut]
     k = int(rng.choice([1, 2, 5, 1000]))
     desc = {'kind': 'model', 'seed': case['seed'], 'opts': opts, 'max_n_spikes_per_template': k}
     d = scratch_dir('c17_')
